@@ -108,7 +108,7 @@ def jax_template(ctx: Ctx, rule: str):
     if av.has_unk(v) or not branches:
         ctx.undecided(rule, jp.key("rewrite"), f"JaxPrinter._print_Assignment is not understood ({av.show(v)[:120]})", jp.where())
     else:
-        want = "_" + av.HO + "expr.lhs.base.name" + av.HC + "_" + av.HO + "self._print(expr.lhs.indices[0])" + av.HC + " = " + av.HO + "self._print(expr.rhs)" + av.HC
+        want = "_values_" + av.HO + "self._print(expr.lhs.indices[0])" + av.HC + " = " + av.HO + "self._print(expr.rhs)" + av.HC
         okp = len(rew) == 1 and av.flatten(rew[0][1]) == want
         conds = " and ".join(av.show(c) for c in (rew[0][0] if rew else ()))
         okc = bool(rew) and "(expr.lhs.base.name == 'values')" in conds and ("isinstance(expr.lhs, sympy.tensor.indexed.Indexed)" in conds or "isinstance(expr.lhs, sympy.Indexed)" in conds) and len(rew[0][0]) == 2
@@ -163,22 +163,32 @@ def jax_callable(ctx: Ctx, rule: str):
         ctx.check(ok, rule, f"jax-printer::{cname}::function", f"{cname} -> {fn}", f"jax printer: {cname} is not printed with {fn}", r.func.where() if r.func else "")
     if nf is not None:
         check_nested(ctx, rule, nf)
+    printers.check_zip_truncation(ctx, rule, "jax")
 
 
 def check_nested(ctx: Ctx, rule: str, nf):
-    calls = [c for c in ast.walk(nf.node) if isinstance(c, ast.Call) and (dotted(c.func) or "").split(".")[-1] == "reduce"]
-    ok = False
-    why = "no functools.reduce over the operands"
-    if calls and len(calls[0].args) >= 2:
-        lam, it = calls[0].args[0], calls[0].args[1]
-        if isinstance(lam, ast.Lambda) and len(lam.args.args) == 2:
-            a, b = [x.arg for x in lam.args.args]
-            sk = fstring_skeleton(lam.body)
-            ok_l = sk is not None and re.fullmatch(r"\{(\w+)\}\(\{" + a + r"\}, \{" + b + r"\}\)", sk) is not None
-            ok_i = isinstance(it, (ast.ListComp, ast.GeneratorExp)) and len(it.generators) == 1 and norm(it.generators[0].iter) == f"{nf.params[-1]}.args" and not it.generators[0].ifs and norm(it.elt) == f"self._print({it.generators[0].target.id})"
-            ok = ok_l and ok_i and len(calls[0].args) == 2
-            why = f"combiner {sk!r}, operands {norm(it)[:60]}"
-    ctx.check(ok, rule, nf.key("all-operands"), "left fold f(f(a, b), c) over every operand", f"_print_nested does not fold the binary function over *all* operands of the connective ({why}): operands can be dropped", nf.where())
+    """_print_nested(func, expr) = func(func(a, b), c)...: a left fold of the binary function over *every* printed operand."""
+    from sa import av
+
+    v = util.value_of(ctx, nf)
+    key = nf.key("all-operands")
+    if av.has_unk(v):
+        ctx.undecided(rule, key, f"how _print_nested combines the operands is not understood ({av.find_all(v, 'unk')[0][1]})", nf.where())
+        return
+    fp, ep = nf.params[-2], nf.params[-1]
+    ok, why = False, f"it returns {av.show(v)[:160]}"
+    if v[0] == "fold":
+        d, it, init, body = v[1], v[2], v[3], v[4]
+        # operands: every element of expr.args, printed; first one seeds the fold, the rest are folded in
+        ops = r"<self\._print\(\$(\d+)\) for \$\1 in " + re.escape(ep) + r"\.args>"
+        ok_i = re.fullmatch(ops + r"\[1:\]", av.show(it)) is not None and re.fullmatch(ops + r"\[0\]", av.show(init)) is not None
+        ok_b = body == av.mk_s((("h", ("sym", fp)), ("lit", "("), ("h", ("acc", d)), ("lit", ", "), ("h", ("bv", d)), ("lit", ")")))
+        ok = ok_i and ok_b
+        if not ok_b:
+            why = f"the combiner is {av.show(body)}"
+        elif not ok_i:
+            why = f"it folds {av.show(it)} starting from {av.show(init)}"
+    ctx.check(ok, rule, key, "left fold f(f(a, b), c) over every operand", f"_print_nested does not fold the binary function over *all* printed operands of the connective ({why}): operands can be dropped or misplaced", nf.where())
 
 
 def run(ctx: Ctx):
